@@ -39,7 +39,11 @@ def ic_setup(ctx):
     sub_cfg = Rec("Namespace", attrs={"tag": "sub-section"})
     copy = Rec("Namespace", attrs={"tag": "copy"}, methods={"get_value_and_parent": get_value_and_parent, "__getitem__": lambda c, s_, a_, k: sub_cfg,
                                                             "__setitem__": lambda c, s_, a_, k: c.event("store-sub", a_[0], a_[1])})
-    caller_cfg = Rec("Namespace", attrs={"tag": "caller"}, methods={"get_value_and_parent": lambda c, s_, a_, k: c.event("TOUCHED-CALLER-CFG"), "__setitem__": lambda c, s_, a_, k: c.event("TOUCHED-CALLER-CFG")})
+    # the caller's object behaves like its copy would, but every use is recorded: the frame obligation forbids any
+    caller_cfg = Rec("Namespace", attrs={"tag": "caller"}, methods={
+        "get_value_and_parent": lambda c, s_, a_, k: (c.event("TOUCHED-CALLER-CFG"), get_value_and_parent(c, s_, a_, k))[1],
+        "__getitem__": lambda c, s_, a_, k: (c.event("TOUCHED-CALLER-CFG"), sub_cfg)[1],
+        "__setitem__": lambda c, s_, a_, k: c.event("TOUCHED-CALLER-CFG")})
     subparser = Rec("ArgumentParser", methods={"instantiate_classes": lambda c, s_, a_, k: (c.event("sub.instantiate", a_[0], dict(k)), Rec("Namespace", attrs={"tag": "sub-instantiated"}))[1]})
     order_obj = ["data.loader", "model"]
 
@@ -52,7 +56,7 @@ def ic_setup(ctx):
             return f.methods["__call__"](c, f, a_, k)
         return NotImplemented
 
-    self = Rec("ArgumentParser", attrs={"_actions": actions + [other], "_action_groups": [plain_group, group, dup_group] if with_group else [plain_group], "parser_mode": "yaml"},
+    self = Rec("ArgumentParser", attrs={"_actions": actions + [other], "_action_groups": [plain_group, group, dup_group] if with_group else [plain_group], "parser_mode": "yaml", "_default_meta": ctx.choose(2, "_default_meta") == 1},
                methods={"_get_instantiators": lambda c, s_, a_, k: Rec("instantiators")})
     calls = {
         "filter_default_actions": lambda c, a_, k: list(a_[0]),
